@@ -451,6 +451,7 @@ func (s *gridScreen) mergeIntoPreviousCell(text string) {
 		x--
 	}
 	s.cellText[y][x] += text
+	s.frontend.RegionChanged(Region{Y: y, Y2: y + 1, X: x, X2: s.cursorPos.X}, CRText)
 }
 
 // This is like writeRunes, but it moves existing runes to the right
